@@ -330,6 +330,26 @@ func checkC18(c *Ctx) {
 							if callee := x.Common().StaticCallee(); callee != nil && pureCallee(callee) {
 								continue
 							}
+							// read as the source of a copy by the standard library: maps.Clone(src), maps.Copy(dst, src), slices.Clone(src) —
+							// the entries are copied into another map, the shared map itself goes nowhere
+							if callee := x.Common().StaticCallee(); callee != nil {
+								gen := callee
+								if callee.Origin() != nil {
+									gen = callee.Origin()
+								}
+								if obj := gen.Object(); obj != nil && obj.Pkg() != nil {
+									argIdx := -1
+									for i, aa := range x.Common().Args {
+										if aa == a {
+											argIdx = i
+										}
+									}
+									pp, nm := obj.Pkg().Path(), obj.Name()
+									if (pp == "maps" || pp == "slices") && (nm == "Clone" && argIdx == 0 || nm == "Copy" && argIdx == 1 || nm == "Keys" || nm == "Values" || nm == "All" || nm == "Equal") {
+										continue
+									}
+								}
+							}
 							report(in, g, "passed to a callee")
 						}
 					}
